@@ -4,6 +4,7 @@
 package tlive
 
 import (
+	"bytes"
 	"fmt"
 	"math"
 	"runtime"
@@ -159,13 +160,45 @@ func noteLate(sc Scenario, s string) {
 // Quiesce waits until the package has no pending future and no worker, helping
 // sleeping workers along with wake-up tokens (Call+Cancel of a far future).
 // Returns false if that did not happen within the deadline.
+// packageGoroutines counts the goroutines that are inside the timer package (by their stacks)
+func packageGoroutines() int {
+	buf := make([]byte, 1<<20)
+	buf = buf[:runtime.Stack(buf, true)]
+	n := 0
+	for _, g := range bytes.Split(buf, []byte("\n\n")) {
+		if bytes.Contains(g, []byte("golibs/timeout.(*callControl).")) {
+			n++
+		}
+	}
+	return n
+}
+
+// LeakedGoroutines is set by Quiesce when the counters of the package say "no worker" and goroutines of the package
+// still exist two seconds later
+var LeakedGoroutines int
+
 func Quiesce(deadline time.Duration) bool {
 	t0 := time.Now()
+	var zeroSince time.Time
 	for i := 0; ; i++ {
 		w, _, p := timeout.VerifSnapshot()
 		if w == 0 && len(p) == 0 {
-			return true
+			// "winds down to zero background goroutines": the counter says so; the goroutines must be gone as well
+			n := packageGoroutines()
+			if n == 0 {
+				return true
+			}
+			if zeroSince.IsZero() {
+				zeroSince = time.Now()
+			}
+			if time.Since(zeroSince) > 2*time.Second {
+				LeakedGoroutines = n
+				return false
+			}
+			time.Sleep(2 * time.Millisecond)
+			continue
 		}
+		zeroSince = time.Time{}
 		if time.Since(t0) > deadline {
 			return false
 		}
@@ -359,6 +392,9 @@ func Run(sc Scenario, seed uint64) Result {
 	if !Quiesce(20 * time.Second) {
 		w, tk, p := timeout.VerifSnapshot()
 		res.NotQuiet = fmt.Sprintf("after 20 s with a 2 ms idle timeout: %d worker(s), %d token(s), %d pending future(s)", w, tk, len(p))
+		if LeakedGoroutines > 0 {
+			res.NotQuiet = fmt.Sprintf("the package counts no worker and no pending future, but %d goroutine(s) of it still exist two seconds later (workers that never exit)", LeakedGoroutines)
+		}
 		return res
 	}
 	res.PreWaitNs = int64(time.Since(t))
